@@ -155,17 +155,25 @@ func (t *Target) denyByIP(ip net.IP) bool {
 // ProcessAccessRules processes access rules from options specified on the target route
 func (t *Target) ProcessAccessRules() error {
 	if t.Opts["allow"] != "" && t.Opts["deny"] != "" {
+		t.denyAll()
 		return errors.New("specifying allow and deny on the same route is not supported")
 	}
 
 	for _, allowDeny := range []string{"allow", "deny"} {
 		if t.Opts[allowDeny] != "" {
 			if err := t.parseAccessRule(allowDeny); err != nil {
+				t.denyAll()
 				return err
 			}
 		}
 	}
 	return nil
+}
+
+// denyAll installs an empty allow list. Rules which cannot
+// be processed must not leave the target open to everyone.
+func (t *Target) denyAll() {
+	t.accessRules = map[string][]interface{}{ipAllowTag: nil}
 }
 
 func (t *Target) parseAccessRule(allowDeny string) error {
